@@ -128,11 +128,47 @@ def doc_spec(i: int) -> dict:
         # a rate law that is NOT symmetric in its arguments (a permuted signature changes the value)
         {"family": "F2r", "params": {"kf": 2.0, "kr": 0.5}, "y0": {"x": 1.0, "y": 3.0}},
         {"family": "F2r", "params": {"kf": 2.0, "kr": 0.25}, "y0": {"x": 1.0, "y": 3.0}},
+        # two documents that differ ONLY in the math of an initial assignment
+        {"family": "F1", "params": {"c": 1.0, "k": 0.5}, "y0": {"x": 1.0}, "ia": "mul2"},
+        {"family": "F1", "params": {"c": 1.0, "k": 0.5}, "y0": {"x": 1.0}, "ia": "add2"},
     ]
     return table[i % len(table)]
 
 
-N_DOCS = 9
+N_DOCS = 11
+
+
+def _ia_mul2(c):  # noqa: ANN001, ANN202
+    return 2 * c
+
+
+def _ia_add2(c):  # noqa: ANN001, ANN202
+    return c + 2
+
+
+_IA_XML = {
+    "mul2": "<apply><times/><cn>2</cn><ci>c</ci></apply>",
+    "add2": "<apply><plus/><ci>c</ci><cn>2</cn></apply>",
+}
+
+
+def write_doc(i: int, path) -> None:  # noqa: ANN001
+    """Write document i.  (mxlpy's exporter cannot write initial assignments of variables at
+    the pinned commit - it raises AttributeError - so those documents get theirs spliced in.)"""
+    from mxlpy import sbml
+
+    spec = doc_spec(i)
+    sbml.write(models.build_model(spec), path)
+    if spec.get("ia"):
+        text = Path(path).read_text()
+        block = (
+            "<listOfInitialAssignments><initialAssignment symbol=\"x\">"
+            f"<math xmlns=\"http://www.w3.org/1998/Math/MathML\">{_IA_XML[spec['ia']]}</math>"
+            "</initialAssignment></listOfInitialAssignments>"
+        )
+        if "</listOfParameters>" not in text:
+            raise HarnessError("cannot splice initial assignment into the document")
+        Path(path).write_text(text.replace("</listOfParameters>", "</listOfParameters>" + block, 1))
 
 
 def _t_vin(c):  # noqa: ANN001, ANN202
@@ -225,7 +261,7 @@ def compute_iso_table() -> dict:
                 home.mkdir(exist_ok=True)
                 os.environ["HOME"] = str(home)
                 p = base / f"iso_doc_{i}.xml"
-                sbml.write(models.build_model(doc_spec(i)), p)
+                write_doc(i, p)
                 for st in STATES:
                     m = sbml.read(p)
                     table[(i, st)] = queries(m, st)
@@ -281,7 +317,7 @@ class Exec:
             from mxlpy import sbml
 
             p = self.base / f"src-doc{i}.xml"
-            sbml.write(models.build_model(doc_spec(i)), p)
+            write_doc(i, p)
             self._doc_bytes[i] = p.read_bytes()
         return self._doc_bytes[i]
 
@@ -527,7 +563,7 @@ class SessionMachine(Machine):
                 pid = os.fork()  # write the document without touching this process' library state
                 if pid == 0:
                     try:
-                        sbml.write(models.build_model(doc_spec(i)), p)
+                        write_doc(i, p)
                     finally:
                         os._exit(0)
                 os.waitpid(pid, 0)
